@@ -135,6 +135,7 @@ type Machine struct {
 	sharedInit  map[*ssa.Package]bool
 	snap        map[*ssa.Global]Value
 	inInit      int
+	nestedInit  map[*ssa.Function]bool
 	steps       int64
 	funcs       map[string]bool
 	stubs       map[string]int
